@@ -3,6 +3,7 @@ CONSTANTS
   Groups = {"validators"}
   Pinned = TRUE
   InPlace = FALSE
+  Reuse = FALSE
   MaxPar = 2
 INVARIANTS TypeOK Linearizable Disciplined
 CONSTRAINT Bounded
